@@ -706,6 +706,48 @@ func runC09(c *Ctx) {
 			_, ok := base.(*ssa.Alloc)
 			return ok
 		}
+		if !hasLockOps && !entryLocked[fn] && isCacheMethod(fn) && exported(fn) {
+			// an exported method that leaves the locking to what it calls is one critical section only if it
+			// makes exactly one call that acquires the lock, and not in a loop
+			var acq []ssa.CallInstruction
+			inLoop := false
+			allInstrs(fn, func(in ssa.Instruction) {
+				ci, ok := in.(ssa.CallInstruction)
+				if !ok {
+					return
+				}
+				cal := staticCallee(ci.Common())
+				if cal == nil || cal.Blocks == nil || !mayLock(cal) {
+					return
+				}
+				acq = append(acq, ci)
+				b := in.Block()
+				seen := map[*ssa.BasicBlock]bool{}
+				var dfs func(x *ssa.BasicBlock)
+				dfs = func(x *ssa.BasicBlock) {
+					for _, y := range x.Succs {
+						if y == b {
+							inLoop = true
+						}
+						if !seen[y] {
+							seen[y] = true
+							dfs(y)
+						}
+					}
+				}
+				dfs(b)
+			})
+			if len(acq) > 0 {
+				var probs []string
+				if len(acq) != 1 {
+					probs = append(probs, fmt.Sprintf("%d calls that each acquire and release the lock (want exactly 1)", len(acq)))
+				}
+				if inLoop {
+					probs = append(probs, fmt.Sprintf("the lock-acquiring call at %s is inside a loop: the method is a sequence of critical sections, other operations can run between them", P.pos(instrPos(acq[0]))))
+				}
+				c.judge(len(probs) == 0, "R-LOCK-WHOLE", name, fn.Pos(), "delegates to exactly one lock-acquiring call", fmt.Sprint(probs))
+			}
+		}
 		if !hasLockOps && !entryLocked[fn] {
 			// function touches guarded state without any locking: R-LOCK-WHO
 			for _, ev := range r.events {
